@@ -1502,7 +1502,12 @@ impl<T: Storage> Raft<T> {
                 // ...and we believe the candidate is up to date.
                 if can_vote
                     && self.raft_log.is_up_to_date(m.index, m.log_term)
-                    && (m.index > self.raft_log.last_index() || self.priority <= get_priority(&m))
+                    // A candidate whose log is strictly more up to date than ours gets the vote
+                    // whatever its priority: comparing only the index would let a higher-priority
+                    // voter with a longer log of an older term reject the only electable node.
+                    && (m.log_term > self.raft_log.last_term()
+                        || m.index > self.raft_log.last_index()
+                        || self.priority <= get_priority(&m))
                 {
                     // When responding to Msg{Pre,}Vote messages we include the term
                     // from the message, not the local term. To see why consider the
